@@ -58,6 +58,18 @@ theorem all_casts :
        ("SimulationAlgorithmGraphBase.hpp", "int", "sampled_t.size()")] := by
   decide +kernel
 
+/-- **nothing is clamped**: the only places where the engine takes a maximum, minimum or absolute value are the truncated
+normal draw of the initial-state redistribution (`max(0, floor(N(x, √x)))`, part of the documented algorithm, modelled in
+`Model/InitState.lean`), the integer remainder `abs(delta)` of that same function, and the integer neighbour test
+`|xi−xj|+|yi−yj|+|zi−zj| = 1`; there is no `if (x < 0) x = 0`: an amount that the arithmetic makes negative stays negative
+(the Euler step is `x + dt·f(x)`, nothing else) -/
+theorem no_clamping :
+    clampSites =
+      [("engine.cpp", "std::max(0.0,std::floor(std::normal_distribution<double>(mesh_x[i],sqrt(mesh_x[i]))(rng)))"),
+       ("engine.cpp", "abs(delta)"), ("SimulationAlgorithm3DBase.hpp", "abs(xi-xj)"),
+       ("SimulationAlgorithm3DBase.hpp", "abs(yi-yj)"), ("SimulationAlgorithm3DBase.hpp", "abs(zi-zj)")] := by
+  decide +kernel
+
 /-- the inventory is not empty (the extraction pattern still matches the sources) -/
 example : 30 ≤ intInits.length ∧ (intInits.filter fun e => integral e).length + 2 = intInits.length := by
   decide +kernel
